@@ -240,6 +240,10 @@ func (e *executor) processInput(workflow *Workflow) (schema.Scope, error) {
 				"invalid workflow input section (the ID %q of object %q does not match its key)", object.ID(), objectID)}
 		}
 	}
+	if _, ok := typedInput.Objects()[typedInput.Root()]; !ok {
+		return nil, &ErrInvalidWorkflow{fmt.Errorf(
+			"invalid workflow input section (the root object %q is not one of the objects)", typedInput.Root())}
+	}
 	typedInput.ApplySelf()
 	return typedInput, nil
 }
